@@ -466,8 +466,13 @@ func main() {
 			"violations":  violations,
 		}
 		b, _ := json.MarshalIndent(ev, "", " ")
-		os.MkdirAll(filepath.Join(verifDir, "evidence"), 0o755)
-		if err := os.WriteFile(filepath.Join(verifDir, "evidence", id+".json"), append(b, '\n'), 0o644); err != nil {
+		evDir := filepath.Join(verifDir, "evidence")
+		if os.Getenv("VERIF_REPO") != "" {
+			// a development run against another checkout never overwrites the committed evidence
+			evDir = filepath.Join(verifDir, "evidence", ".dev")
+		}
+		os.MkdirAll(evDir, 0o755)
+		if err := os.WriteFile(filepath.Join(evDir, id+".json"), append(b, '\n'), 0o644); err != nil {
 			fmt.Printf("INCONCLUSIVE: cannot write evidence: %v\n", err)
 			cleanupAndExit(2)
 		}
